@@ -1,6 +1,7 @@
 package main
 
 import (
+	"strings"
 	"go/types"
 	"fmt"
 	"go/token"
@@ -521,19 +522,29 @@ func (x *c04) r3() {
 		fn := pr.fn
 		g := newIG(m, fn, nil)
 		ret := isRet(g)
-		var grp *corrGroup
+		// every test that compares the active root frame with this table's
+		// frame, in either spelling (!= or ==, operands in either order); the
+		// two scenarios cut the edges on which the comparison comes out the
+		// other way
+		grp := &corrGroup{}
+		cutA, cutB := map[Edge]bool{}, map[Edge]bool{} // A: the table is not the active one, B: it is
 		for _, cg := range correlatedIfs(g, z) {
-			cg := cg
-			if len(cg.Ifs) == 2 {
-				f, _ := condFact(g.Cond(cg.Ifs[0]), true)
-				if f.Op == token.NEQ && (x.isPDTRoot(fn, f.X, 0) && x.isPDTRoot(fn, f.Y, 0)) {
-					grp = &cg
+			f, _ := condFact(g.Cond(cg.Ifs[0]), true)
+			if (f.Op == token.NEQ || f.Op == token.EQL) && x.isPDTRoot(fn, f.X, 0) && x.isPDTRoot(fn, f.Y, 0) {
+				for _, n := range cg.Ifs {
+					grp.Ifs = append(grp.Ifs, n)
+					differ := 0 // the branch taken when the frames differ
+					if f.Op == token.EQL {
+						differ = 1
+					}
+					cutA[Edge{n, 1 - differ}] = true
+					cutB[Edge{n, differ}] = true
 				}
 			}
 		}
 		key := "swap-restore " + m.fnName(fn)
-		if grp == nil {
-			c.fail("C04.R3", key, "the two correlated tests `active frame != pdt.pdtFrame` were not found", m.pos(fn.Pos()))
+		if len(grp.Ifs) == 0 {
+			c.fail("C04.R3", key, "no test `active frame != pdt.pdtFrame` was found", m.pos(fn.Pos()))
 			c.fail("C04.R3", "active-untouched "+m.fnName(fn), "not evaluated", m.pos(fn.Pos()))
 			continue
 		}
@@ -552,9 +563,9 @@ func (x *c04) r3() {
 		}
 		inner := g.callNodes(pr.inner)
 		// ---- inactive scenario
-		cutA := scenarioCut(*grp, 0)
+		isInner := func(n int) bool { return contains(inner, n) }
 		bad := ""
-		if activeV == nil || len(inner) != 1 {
+		if activeV == nil || len(inner) == 0 {
 			bad = "expected one inner operation call and a test against the frame returned by activePDTFn()"
 		}
 		var entryAddr ssa.Value
@@ -594,7 +605,7 @@ func (x *c04) r3() {
 			}{
 				{"SetFrame(recursive entry, pdt.pdtFrame)", isSet(isPdt)},
 				{"flush of the recursive entry", isFlushEntry},
-				{"the inner " + pr.inner.Name() + " call", func(n int) bool { return n == inner[0] }},
+				{"the inner " + pr.inner.Name() + " call", isInner},
 				{"SetFrame(recursive entry, active frame) (restore)", isSet(isAct)},
 				{"flush of the recursive entry after the restore", isFlushEntry},
 			}
@@ -629,7 +640,6 @@ func (x *c04) r3() {
 		}
 		c.check(bad == "", "C04.R3", key, "inactive table: swap, flush, operate, restore the active frame, flush on every path", bad, m.pos(fn.Pos()))
 		// ---- active scenario: no entry write, no flush
-		cutB := scenarioCut(*grp, 1)
 		r := g.Reach([]int{0}, cutB, nil)
 		bad = ""
 		for n := range g.Ins {
@@ -640,23 +650,31 @@ func (x *c04) r3() {
 				bad = "the recursive entry is written although the table is the active one"
 			}
 		}
-		if len(inner) == 1 && !r[inner[0]] {
+		// (on every path: no return is reachable without passing an inner call)
+		if p := g.Path([]int{0}, cutB, isInner, func(n int) bool { return !isInner(n) && ret(n) }); p != nil || len(inner) == 0 {
 			bad = "the inner operation is not performed for the active table"
 		}
 		// both scenarios return the inner result
 		for _, rc := range g.ReturnCases() {
-			if len(inner) == 1 && len(rc.Vals) > 0 && rc.Vals[0] != g.Ins[inner[0]].(ssa.Value) {
+			isRes := false
+			for _, k := range inner {
+				if len(rc.Vals) > 0 && rc.Vals[0] == g.Ins[k].(ssa.Value) {
+					isRes = true
+				}
+			}
+			if len(rc.Vals) > 0 && !isRes {
 				bad = "the result of the inner operation is not what is returned"
 			}
 		}
 		c.check(bad == "", "C04.R3", "active-untouched "+m.fnName(fn), "active table: the recursive entry is never written; the inner result is returned", bad, m.pos(fn.Pos()))
 		// inner call passes the parameters through unchanged
-		if len(inner) == 1 {
-			args := g.callArgs(inner[0])
+		if len(inner) > 0 {
 			okArgs := true
-			for i, a := range args {
-				if a != ssa.Value(fn.Params[i+1]) {
-					okArgs = false
+			for _, k := range inner {
+				for i, a := range g.callArgs(k) {
+					if a != ssa.Value(fn.Params[i+1]) {
+						okArgs = false
+					}
 				}
 			}
 			c.check(okArgs, "C04.R3", "pass-through "+m.fnName(fn), "the inner operation receives the caller's arguments unchanged", "the inner operation does not receive the caller's page/frame/flags unchanged", g.posOf(inner[0]))
@@ -713,6 +731,12 @@ func (x *c04) regionRule(rule string, names []string) {
 		lf, inLoop := g.loopFormAt(z, g.Ins[cn].Block())
 		if !inLoop {
 			bad = "the map call is not in a loop"
+		}
+		// every page of the range is mapped: no way round the loop misses the call
+		if bad == "" {
+			if p, ok := g.loopBypass(cn); ok && p != nil {
+				bad = "an iteration of the page loop can go on to the next page without mapping this one (" + strings.Join(g.where(p, 6), " ") + "): what was mapped there before stays in force"
+			}
 		}
 		if bad == "" {
 			_, pStep, okP := lf.affineInT(args[0])
